@@ -499,6 +499,56 @@ def rule_passthrough(repo: Repo) -> RuleResult:
     return r
 
 
+def rule_groundall(repo: Repo) -> RuleResult:
+    r = RuleResult("C02.groundall", "ground_preconditions grounds the equality pairs, the inequality pairs and the operands on every path",
+                   "(in)equality by object identity is part of every instantiated precondition")
+    f = repo.func("GroundedPrecondition.ground_preconditions")
+    g = C.cfg_of(f.node)
+    p = L.prov(repo, f)
+    dom = C.dominators(g)
+    exits = [n for n, _ in g.pred[g.exit]]
+    need = {}
+    for fld in ("equality_preconditions", "inequality_preconditions"):
+        nodes = []
+        for n in g.nodes():
+            st = g.stmt[n]
+            if isinstance(st, ast.Assign) and any(isinstance(t, ast.Attribute) and t.attr == fld and
+                                                  any(x[:2] == ("self", "attr:_grounded_precondition") for x in p.trace(t.value)) for t in st.targets):
+                tr = p.trace(st.value)
+                if any(x[:2] == ("self", "attr:_lifted_precondition") and f"attr:{fld}" in x and any(s.endswith("_ground_equality_objects") for s in x) for x in tr) and \
+                        any(x[0] == "param:parameters_map" for x in tr):
+                    nodes.append(n)
+        need[fld] = nodes
+    gn = [g.node_containing(c) for c in L.calls_in(f.node) if callee_name(c) == "_ground"]
+    need["operands (_ground)"] = [n for n in gn if n is not None]
+    for what, nodes in need.items():
+        r.site(f"{f.qn} [{what}]")
+        if nodes and exits and all(dom[e] & set(nodes) for e in exits):
+            r.ok({"grounded_on_every_path": what})
+        elif not nodes:
+            r.fail(Finding("C02.groundall", f, f"never-grounded:{what}", f"{what} of the lifted precondition are never grounded into the grounded precondition"))
+        else:
+            r.fail(Finding("C02.groundall", f, f"path-skips:{what}", f"a path through ground_preconditions ends without grounding the {what} "
+                           f"(e.g. an early return): constraints such as (not (= ?x ?y)) are then vacuously true"))
+    # _ground call wiring
+    r.site(f"{f.qn} [_ground arguments]")
+    ok = False
+    for c in L.calls_in(f.node):
+        if callee_name(c) == "_ground":
+            gf = repo.func("GroundedPrecondition._ground")
+            a, b, m = (L.arg_of(c, gf, k) for k in ("lifted_conditions", "grounded_conditions", "parameters_map"))
+            ok = a is not None and b is not None and m is not None and \
+                any(x == ("self", "attr:_lifted_precondition", "attr:root") for x in p.trace(a)) and \
+                any(x == ("self", "attr:_grounded_precondition", "attr:root") for x in p.trace(b)) and \
+                all(x == ("param:parameters_map",) for x in p.trace(m))
+    if ok:
+        r.ok({"_ground": "(lifted root, grounded root, parameters_map)"})
+    else:
+        r.fail(Finding("C02.groundall", f, "ground-arguments", "_ground is not called with (lifted root, grounded root, parameters_map)"))
+    r.require_sites(4)
+    return r
+
+
 def rule_keyerror(repo: Repo) -> RuleResult:
     r = RuleResult("C02.keyerror", "a failure while evaluating a numeric condition yields False, never True", "an evaluation failure must not make a condition true")
     f = repo.func("GroundedPrecondition._validate_numeric_expression_hold")
@@ -532,5 +582,6 @@ def rule_keyerror(repo: Repo) -> RuleResult:
 
 def rules(repo: Repo, tier: str) -> List[RuleResult]:
     return [rule_tables(repo), c12.rule_compare(repo), rule_translate(repo), rule_literal(repo), rule_foldid(repo), rule_foldarms(repo),
-            rule_equality(repo), c06.rule_conform(repo, "C02.range", only_funcs=("GroundedPrecondition._validate_universal_precondition",)),
-            rule_passthrough(repo), rule_keyerror(repo)]
+            rule_equality(repo), c06.rule_range(repo, "C02.range", "GroundedPrecondition._validate_universal_precondition", ("_ground_universal_condition",)),
+            c06.rule_conform(repo, "C02.conform", only_funcs=("GroundedPrecondition._validate_universal_precondition",), floor=0),
+            rule_passthrough(repo), rule_groundall(repo), rule_keyerror(repo)]
